@@ -210,7 +210,7 @@ func runSizes(from, to uint64, fillEvery int, seed uint64) *SizesRes {
 	res := &SizesRes{Combos: map[string]bool{}}
 	for sz := from; sz < to; sz++ {
 		childLog("size %d", sz)
-		fill := fillEvery > 0 && (sz+seed)%uint64(fillEvery) == 0
+		fill := fillEvery > 0 && ((sz+seed)%uint64(fillEvery) == 0 || sz < 1580)
 		checkSize(sz, fill, res)
 		if len(res.Viol) > 0 {
 			break
